@@ -32,4 +32,4 @@ For each change k in (1, 2):
     files_changed, tests_run (commands and outcome), demo_clean_exit, demo_mutated_exit.
  5. restore the worktree (git -C {wt} checkout -- . ) before the next change.
 
-Python to use: /venv/bin/python. There is no network. Do not commit anything. When done, reply with a short summary of the two changes and the paths written.""")
+Python to use: /venv/bin/python. There is no network. The machine is shared and busy: if a timing-sensitive test fails in the full run, rerun that test alone before concluding anything. Demos must add os.getcwd() to sys.path first (the installed pynenc points at /repo, the demo must import the worktree). Do not commit anything. When done, reply with a short summary of the two changes and the paths written.""")
